@@ -1015,6 +1015,9 @@ def py_list_mutator(extend):
                     raise Unsupported(f'pyobj list.append({a!r})')
                 add = z3.Unit(a.z)
             _store_recv(ex, s2, node, VPy(P.py_strlist(z3.Concat(P.py_l(r.z), add))))
+            # ghost event: lists are modelled by value, so an in-place mutation is the one thing that could be
+            # seen through an alias of the same list object - contracts can forbid it (c.events(...))
+            s2.events.append(('pyobj_inplace_mutation', (r, VStr('extend' if extend else 'append'))))
             out.append((s2, VNone))
         return out
     return f
